@@ -243,6 +243,56 @@ def oracle_t01(L, recs, frames=None):
     return None
 
 
+def oracle_history_t01(L, recs):
+    """Interleaved history: after EVERY add, the frame index answers from the records added so far (no stale state)."""
+    try:
+        r = L.RLEType01('FEET')
+        total, starts = 0, []
+        for k, (p, n, x) in enumerate(recs):
+            r.add(p, n, x)
+            starts.append(total); total += n
+            if r.totalFrames() != total:
+                return f'after add #{k + 1}: totalFrames() = {r.totalFrames()}, sum of frame counts so far = {total}'
+            for f in sorted({0, total - 1, total // 2, starts[-1], total}):
+                if 0 <= f < total:
+                    j = bisect.bisect_right(starts, f) - 1
+                    want = (recs[j][0], f - starts[j])
+                else:
+                    want = 'I'
+                got = _exc(r.tellLrForFrame, f)
+                if got != want:
+                    return f'after add #{k + 1}: tellLrForFrame({f}) = {got}, expected {want}'
+    except Exception as e:
+        return f'unexpected {type(e).__name__}: {e}'
+    return None
+
+
+def oracle_history_rle(R, xs):
+    """Interleaved history: after EVERY add, count / first / last / indexing / iteration answer from the prefix added so far."""
+    try:
+        rle = R.RLE()
+        for k, v in enumerate(xs):
+            rle.add(v)
+            pre = xs[:k + 1]
+            if rle.num_values() != k + 1:
+                return f'after add #{k + 1}: num_values() = {rle.num_values()}'
+            if rle.first() != pre[0] or rle.last() != pre[-1]:
+                return f'after add #{k + 1}: first/last = {rle.first()}/{rle.last()}, expected {pre[0]}/{pre[-1]}'
+            for i in {0, k, -1, -(k + 1), k // 2}:
+                if rle.value(i) != pre[i]:
+                    return f'after add #{k + 1}: value({i}) = {rle.value(i)}, expected {pre[i]}'
+            if k % 3 == 0 and list(rle.values()) != pre:
+                return f'after add #{k + 1}: values() differs from the prefix added so far'
+            if is_sorted(pre):
+                for q in (pre[-1], pre[0], pre[k // 2] + 1):
+                    j = bisect.bisect_right(pre, q)
+                    if j and _exc(rle.largest_le, q) != pre[j - 1]:
+                        return f'after add #{k + 1}: largest_le({q}) = {_exc(rle.largest_le, q)}, expected {pre[j - 1]}'
+    except Exception as e:
+        return f'unexpected {type(e).__name__}: {e}'
+    return None
+
+
 def shrink(xs, fails):
     """greedy delta-debugging of a failing list (only ever runs after a failure)."""
     xs = list(xs)
@@ -501,6 +551,25 @@ def run(ctx):
     for key in ('largest_le_on_unsorted', 't01_outside_hypotheses'):
         ctx.note(f'{key}: {ctx.stats.get(key + "_compared", 0)} model/implementation comparisons outside the property\'s '
                  f'quantifier, {ctx.stats.get(key + "_differences", 0)} differences (informational, not part of the verdict)')
+    # interleaved add/query histories (oracle only: every answer is a function of the prefix added so far)
+    for _ in range(ctx.n(400, 4000)):
+        recs = gen_recs(rng, rng.randint(1, 30))
+        if not in_quantifier(recs):
+            continue
+        ctx.count('oracle_cases'); ctx.count('history_cases')
+        bad = oracle_history_t01(L, recs)
+        if bad is not None:
+            small = shrink(recs, lambda c: bool(c) and in_quantifier(c) and oracle_history_t01(L, c) is not None)
+            ctx.fail({'op': 't01_hist', 'recs': [list(r) for r in small]}, oracle_history_t01(L, small) or bad)
+    for _ in range(ctx.n(400, 4000)):
+        xs = gen_runs(rng, rng.randint(1, 40), sorted_only=rng.random() < 0.5)
+        if not xs:
+            continue
+        ctx.count('oracle_cases'); ctx.count('history_cases')
+        bad = oracle_history_rle(R, xs)
+        if bad is not None:
+            small = shrink(xs, lambda c: bool(c) and oracle_history_rle(R, c) is not None)
+            ctx.fail({'op': 'rle_hist', 'xs': small}, oracle_history_rle(R, small) or bad)
     # float X values (oracle only)
     for _ in range(ctx.n(300, 3000)):
         recs = gen_recs(rng, rng.randint(0, 40), xfloat=True)
@@ -540,6 +609,10 @@ def replay(ctx, rec):
         bad = oracle_float(R, [float.fromhex(h) for h in case['xs']])
     elif op == 't01':
         bad = oracle_t01(L, [tuple(r) for r in case['recs']])
+    elif op == 't01_hist':
+        bad = oracle_history_t01(L, [tuple(r) for r in case['recs']])
+    elif op == 'rle_hist':
+        bad = oracle_history_rle(R, case['xs'])
     else:
         return True, 'nothing to replay (no concrete failing input was recorded)'
     if bad is not None:
